@@ -19,16 +19,19 @@ package webrtc
 import (
 	"fmt"
 	"testing"
+
+	"pgregory.net/rapid"
 )
 
 type vfC09Monitor struct {
-	all      []vfFamBFinding
-	index    map[string]int // mid -> m-section index, from every description seen so far
-	maxIndex int
-	descs    int
-	objMid   [2]map[*RTPTransceiver]string
-	midObj   [2]map[string]*RTPTransceiver
-	history  []string
+	all                       []vfFamBFinding
+	index                     map[string]int // mid -> m-section index, from every description seen so far
+	maxIndex                  int
+	descs                     int
+	objMid                    [2]map[*RTPTransceiver]string
+	midObj                    [2]map[string]*RTPTransceiver
+	history                   []string
+	rejected, rejectedNotLast int
 }
 
 func vfC09NewMonitor() *vfC09Monitor {
@@ -51,6 +54,14 @@ func (m *vfC09Monitor) onDesc(ev vfFamBPEvent) {
 		return
 	}
 	mids := d.MidList()
+	for i, sec := range d.Sections {
+		if sec.Port == 0 && sec.Media != "application" {
+			m.rejected++
+			if i < len(d.Sections)-1 {
+				m.rejectedNotLast++
+			}
+		}
+	}
 	who := fmt.Sprintf("round %d peer %d %s mids=%q", ev.Round, ev.Peer, ev.Kind, mids)
 	m.history = append(m.history, who)
 	prevMax := m.maxIndex
@@ -105,7 +116,7 @@ func TestVerif_C09_Pair(t *testing.T) {
 			"sections without a=mid are C06's finding and are skipped here",
 		},
 	}, func(v *vfT) vfFamBPCase {
-		return vfFamBGenPair(v.R, 3, 10, true)
+		return vfFamBGenPair(v.R, 3, 10, true, rapid.IntRange(0, 1).Draw(v.R, "asymmetricPeers") == 0)
 	}, func(v *vfT, c vfFamBPCase) {
 		m := vfC09NewMonitor()
 		st := vfFamBRunPair(v, c, m.onDesc, m.onStep, nil)
@@ -115,6 +126,12 @@ func TestVerif_C09_Pair(t *testing.T) {
 		}
 		if st.AddAfterRound {
 			v.Label("addition-after-first-round")
+		}
+		if m.rejected > 0 {
+			v.Label("history-with-rejected-media-section")
+		}
+		if m.rejectedNotLast > 0 {
+			v.Label("history-with-rejected-media-section-not-last")
 		}
 		if st.Rounds >= 3 && st.Offered[0] && st.Offered[1] && st.AddAfterRound {
 			v.NonTrivial()
